@@ -679,3 +679,36 @@ Example ex_arc_order :
   complex_graph_nodes (as_bipartite_undirected (RG (rg_nodes exn_G) (rev exn_U))) = Some (complex_graph C19_Complexes.ex_net []) /\
   as_bipartite_undirected (RG (rg_nodes exn_G) (rev exn_U)) <> exn_G.
 Proof. split; [vm_compute; reflexivity|]. split; [vm_compute; discriminate|]. split; [vm_compute; reflexivity|vm_compute; discriminate]. Qed.
+
+(* ------------------------------------------------------------------ parallel arcs add up (multigraph inputs) *)
+
+Lemma csum_cons {A} (f : A -> Z) a l : csum f (a :: l) = (f a + csum f l)%Z.
+Proof. reflexivity. Qed.
+
+Lemma contrib_split si r ro i u v role c1 c2 :
+  contrib si r ro i (RArc u v role (Some (c1 + c2)%Z)) =
+  (contrib si r ro i (RArc u v role (Some c1)) + contrib si r ro i (RArc u v role (Some c2)))%Z.
+Proof.
+  unfold contrib, coeff. simpl. destruct (index_get si (if N.eqb u r then v else u)); [|reflexivity].
+  destruct (Nat.eqb n i); [|reflexivity]. destruct role as [ro'|]; [|reflexivity]. destruct (role_eqb ro' ro); reflexivity.
+Qed.
+
+(** a multiset written with a coefficient, as one arc per molecule, or in any batches is the same multiset: splitting an arc of
+    coefficient c1 + c2 into two parallel arcs c1, c2 (same ends, same role) changes no vector and not the complex graph *)
+Theorem parallel_arcs_add ns pre post u v role c1 c2 :
+  let A := pre ++ RArc u v role (Some (c1 + c2)%Z) :: post in
+  let A' := pre ++ RArc u v role (Some c1) :: RArc u v role (Some c2) :: post in
+  (forall ro r, node_vec (RG ns A') ro r = node_vec (RG ns A) ro r) /\
+  complex_graph_nodes (RG ns A') = complex_graph_nodes (RG ns A).
+Proof.
+  intros A A'. assert (V : forall ro r, node_vec (RG ns A') ro r = node_vec (RG ns A) ro r).
+  { apply node_vec_ext. intros ro r i _. set (si := species_index (RG ns A)). rewrite !incident_csum. unfold A, A'.
+    rewrite !csum_app, !csum_cons. cbn [ra_u ra_v]. rewrite (contrib_split si r ro i u v role c1 c2).
+    destruct (N.eqb v r), (N.eqb u r); lia. }
+  split; [exact V|apply complex_graph_nodes_ext; exact V].
+Qed.
+
+Example ex_parallel :
+  complex_graph_nodes (RG (rg_nodes exn_raw) [RArc 1 4 (Some Reactant) None; RArc 4 2 (Some Product) (Some 1%Z); RArc 4 2 (Some Product) None;
+                                                RArc 3 4 None (Some 5%Z)]) = complex_graph_nodes exn_raw.
+Proof. vm_compute. reflexivity. Qed.
